@@ -12,7 +12,7 @@ from matched_markets.methodology.geoeligibility import GeoEligibility
 ID = 'C16'
 LEVEL = 'exploration'
 RULE = ('Engine A: every table over n <= 3 | 4 geos with rows from the eight 0/1 triples (8^n), geo as column or as '
-        'index, integer or string IDs; malformed variants of every valid 2-geo table (each required column missing, '
+        'index, integer or string IDs, value columns in 5 other orders and with extra columns (n = 2, and n = 3 with distinct rows); malformed variants of every valid 2-geo table (each required column missing, '
         'duplicate IDs incl. 1 vs \'1\', entries 2, -1, 0.5, \'1\', NaN in every value column and row, duplicate column names); for every accepted '
         'table EVERY ordered subset of its geos including the empty one, indices False/True. Oracle: acceptance <=> '
         'reference validity predicate, rejection by ValueError; the seven classes partition the subset, each geo in '
@@ -22,9 +22,16 @@ ASSUMPTIONS = ['an empty ordered subset is a subset like any other: its classes 
                'list may alternatively be rejected with ValueError)']
 
 
-def table(rows, ids, geo_as_index=False):
+COLORDERS = {'canonical': ['geo', 'control', 'treatment', 'exclude'], 'tce-swapped': ['geo', 'treatment', 'control', 'exclude'],
+             'exclude-first': ['exclude', 'geo', 'control', 'treatment'], 'reversed': ['exclude', 'treatment', 'control', 'geo'],
+             'rotated': ['geo', 'exclude', 'control', 'treatment'], 'with-extra-columns': ['note', 'treatment', 'geo', 'exclude', 'weight', 'control']}
+
+
+def table(rows, ids, geo_as_index=False, colorder='canonical'):
     df = pd.DataFrame({'geo': ids, 'control': [r[0] for r in rows], 'treatment': [r[1] for r in rows],
-                       'exclude': [r[2] for r in rows]})
+                       'exclude': [r[2] for r in rows], 'note': ['n%d' % i for i in range(len(rows))],
+                       'weight': [1 - r[0] for r in rows]})
+    df = df[COLORDERS[colorder]]       # the columns are identified by NAME; their order (and extra columns) is presentation
     if geo_as_index:
         df = df.set_index('geo')
     return df
@@ -40,6 +47,9 @@ def cases(tier, seed):
                 modes += (('col', 'int'), ('index', 'str'))
             for mode in modes:
                 out.append({'kind': 'table', 'rows': [list(r) for r in rows], 'geo': mode[0], 'ids': mode[1]})
+            if n == 2 or (n == 3 and len(set(rows)) == 3):      # column presentations: every order class + extra columns
+                for k, co in enumerate(c for c in COLORDERS if c != 'canonical'):
+                    out.append({'kind': 'table', 'rows': [list(r) for r in rows], 'geo': ('col', 'index')[k % 2], 'ids': 'str', 'colorder': co})
     base = [[1, 1, 1], [1, 0, 0]]
     for mal in ('no-geo', 'no-control', 'no-treatment', 'no-exclude', 'dup-ids', 'dup-ids-1-vs-str1', 'entry-2', 'entry--1',
                 'entry-0.5', 'entry-str1', 'entry-nan', 'dup-column', 'entry-True', 'entry-1.0'):
@@ -62,8 +72,14 @@ def run_table(case):
     viol = []
     counts = {'subsets_checked': 0}
     try:
-        ge = GeoEligibility(table(rows, ids, case['geo'] == 'index'))
+        tab = table(rows, ids, case['geo'] == 'index', case.get('colorder', 'canonical'))
+        tab_before = tab.copy(deep=True)
+        ge = GeoEligibility(tab)
         acc = True
+        if not tab.equals(tab_before) or list(tab.columns) != list(tab_before.columns) or tab.index.name != tab_before.index.name:
+            viol.append({'key': 'C16:caller-table-modified', 'msg': 'the constructor modified the table it was given (rows %s)' % (rows,)})
+        # caller-side action: the caller goes on editing HIS table (swaps two columns' contents); the object must not follow
+        tab['control'], tab['exclude'] = tab['exclude'].copy(), tab['control'].copy()
     except ValueError:
         acc = False
     except Exception as e:
